@@ -1,6 +1,7 @@
 package main
 
 import (
+	"fmt"
 	"time"
 
 	"verifsim/simnet"
@@ -61,6 +62,9 @@ func init() {
 			r := simnet.NewRng(seed, "c08")
 			if idx%6 == 5 {
 				return genKeyCacheHistory(seed, tier)
+			}
+			if idx%12 == 4 || idx%12 == 9 {
+				return c08IdleSpec(seed, r, "tcp") // UDP datagrams are keyed one by one at send time; an unopened UDP session is reaped after a minute of silence
 			}
 			mode := []string{"client", "server"}[idx%2]
 			tr := []string{"tcp", "udp"}[(idx/2)%2]
@@ -165,4 +169,40 @@ func init() {
 			return s
 		},
 	})
+}
+
+// c08IdleSpec: real client and real server with equal clocks, but the application is slow: it dials,
+// stays idle for seconds to an hour - across one, two, three key-slot changes - and only then writes
+// for the first time (0-RTT connections and connections taken straight from the multiplexer send
+// nothing before that), or a second session starts that long after the first. The handshake must
+// still succeed and the data arrive: "at every instant ... their handshake succeeds".
+func c08IdleSpec(seed uint64, r *simnet.Rng, tr string) *spec.RunSpec {
+	s := genStreamSpec("C08", seed, streamGenOpts{transport: tr, maxBytes: 3000, maxSessions: 2, closeMode: "barrier", rich: false})
+	s.Scenario = "stream"
+	s.VirtualCapS = 6000
+	s.Server.RawMux = r.Bool(0.5)
+	idle := int64(r.Pick(1, 30, 59, 61, 119, 121, 179, 181, 239, 241, 299, 301, 600, 3600)) * 1000000
+	for ci := range s.Clients {
+		c := &s.Clients[ci]
+		c.NoWait = !s.Server.RawMux
+		for si := range c.Sessions {
+			se := &c.Sessions[si]
+			if len(se.C2S.Writes) == 0 {
+				se.C2S.Writes = []int{1}
+			}
+			if len(se.C2S.Writes) > 3 {
+				se.C2S.Writes = se.C2S.Writes[:3]
+			}
+			se.C2S.GapsUs = []int64{idle + int64(r.Intn(2000000)), 1000, 1000}
+			se.C2S.ReadDelayUs, se.S2C.ReadDelayUs = 0, 0
+			if si > 0 && r.Bool(0.5) {
+				se.StartUs += idle // a later session on a multiplexer that has been idle meanwhile
+			}
+		}
+	}
+	s.Net.Rules, s.Net.DropRate, s.Net.DupRate, s.Net.DelayRate = nil, 0, 0, 0
+	s.Net.Blackholes = nil
+	s.Liveness = nil
+	s.Profile = fmt.Sprintf("c08-idle-%ds-before-first-write-%s", idle/1000000, tr)
+	return s
 }
